@@ -391,6 +391,26 @@ func applyCause(c string, a, b *hubx.Node) {
 		if w := a.App.Writers[b.SKI]; w != nil {
 			w.WriteShipMessageWithPayload([]byte(`{"datagram":{"n":1}}`))
 		}
+	case "stalledDisconnectA", "stalledUnregisterA":
+		// the path to the peer takes no data any more (the first SPINE frame hangs in the socket until the write deadline),
+		// a second message fills the queue, then the user disconnects gracefully: the close announce waits for the queue
+		for _, l := range fakews.Links() {
+			for _, sock := range []*fakews.Conn{l.Client, l.Server} {
+				sock.StallWrites = func(f fakews.Frame) bool { return f.Type == fakews.BinaryMessage && len(f.Data) > 0 && f.Data[0] == 2 }
+			}
+		}
+		if w := a.App.Writers[b.SKI]; w != nil {
+			simrt.Go("appA-writer1", func() { w.WriteShipMessageWithPayload([]byte(`{"datagram":{"n":1}}`)) })
+			simrt.Go("appA-writer2", func() { w.WriteShipMessageWithPayload([]byte(`{"datagram":{"n":2}}`)) })
+		}
+		later := false
+		simrt.NewTimer(20*time.Millisecond, 0, "user-thinks", func() { later = true })
+		simrt.Block("user-thinks", func() bool { return later })
+		if c == "stalledDisconnectA" {
+			a.Hub.DisconnectSKI(b.SKI, "user")
+		} else {
+			a.Hub.UnregisterRemoteSKI(b.SKI)
+		}
 	}
 }
 
@@ -494,6 +514,10 @@ func c11Scenarios(r *hx.Run) []hx.Scenario {
 	}
 	for _, c := range causes {
 		out = append(out, hx.Scenario{Name: "c11:single:" + c, Body: c11Body(c, "", false, false), Bounds: simrt.B(1, 0, 0), Cfg: c11cfg})
+	}
+	// graceful local closes on a path that takes no data any more, with a full write queue
+	for _, c := range []string{"stalledDisconnectA", "stalledUnregisterA"} {
+		out = append(out, hx.Scenario{Name: "c11:single:" + c, Body: c11Body(c, "", false, false), Bounds: simrt.B(pb, 0, 0), Cfg: c11cfg})
 	}
 	pairs := [][2]string{{"disconnectA", "disconnectB"}, {"disconnectA", "cutLink"}, {"disconnectA", "peerEOF"}, {"unregisterA", "disconnectB"},
 		{"shutdownA", "disconnectB"}, {"disconnectB", "writeAfterPeerClose"}, {"cutLink", "writeAfterPeerClose"}, {"shutdownA", "shutdownB"}, {"unregisterA", "unregisterB"}}
